@@ -269,7 +269,7 @@ def main(ctx):
     reg = sorted(glob.glob(os.path.join(common.VERIF_DIR, "regress", "C02", "*.json")))
     ctx.pmap(regress_worker, [(p, known) for p in reg])
     n = 120 if quick else 1500
-    stop_at = time.time() + (70 if quick else 1500)
+    stop_at = time.time() + (70 if quick else 900)
     ctx.pmap(worker, [(ctx.seed * 100003 + i, n, known, stop_at, 8 if quick else 11) for i in range(common.NPROC)])
     ctx.rule = ("case = (generated program, option set, guided input of 2..16 bytes); all 2^(n-1) chunk compositions for n <= 8 (quick) / 11 "
                 "(thorough), otherwise every single and double cut, strided cuts and Hypothesis-drawn cut sets; zero-length chunks inserted when "
